@@ -308,14 +308,17 @@ func (e *Evaluator) evalForStmt(node *ast.ForStmt, env *object.Env) object.Objec
 
 	// loop through the block until the user's condition is false
 	for {
-		cond := e.Eval(node.Condition, newEnv)
+		// an absent condition is always true
+		if node.Condition != nil {
+			cond := e.Eval(node.Condition, newEnv)
 
-		if isError(cond) {
-			return cond
-		}
+			if isError(cond) {
+				return cond
+			}
 
-		if !isTruthy(cond) {
-			break
+			if !isTruthy(cond) {
+				break
+			}
 		}
 
 		block := e.Eval(node.Block, newEnv)
@@ -326,14 +329,18 @@ func (e *Evaluator) evalForStmt(node *ast.ForStmt, env *object.Env) object.Objec
 
 		blocks.WriteString(block.String())
 
-		post := e.Eval(node.Post, newEnv)
-
-		if isError(post) {
-			return post
+		if hasBreakStmt(block) {
+			break
 		}
 
 		if node.Init == nil || node.Post == nil {
 			continue
+		}
+
+		post := e.Eval(node.Post, newEnv)
+
+		if isError(post) {
+			return post
 		}
 
 		varName := node.Init.(*ast.AssignStmt).Name.Value
@@ -341,14 +348,6 @@ func (e *Evaluator) evalForStmt(node *ast.ForStmt, env *object.Env) object.Objec
 		err := newEnv.Set(varName, post)
 		if err != nil {
 			return e.newError(node, "%s", err.Error())
-		}
-
-		if hasBreakStmt(block) {
-			break
-		}
-
-		if hasContinueStmt(block) {
-			continue
 		}
 	}
 
